@@ -100,6 +100,10 @@ def specObservation (st : Stager) (pend : Bytes → Bool) (out : Bytes)
   (!inDomain st ||
     (decide (out.length ≤ Gen.v2MaxObservationLength) && dec.isSome && decodeObs out == dec))
 
+/-- the bytes handed to libocr stay what they were: `later` = the very slice `Observation` returned,
+read again after further calls on this or any other instance in the process -/
+def specRetained (out later : Bytes) : Bool := out == later
+
 def explainObservation (st : Stager) (pend : Bytes → Bool) (out : Bytes)
     (dec : Option (Bytes × List (Option Bytes))) : String :=
   let allowed := (observe pend st).2
